@@ -10,6 +10,16 @@ use crate::{commands, Value};
 use chrono::{DateTime, Local, TimeZone};
 use std::collections::BTreeMap;
 
+#[cfg(rink_verif_sim)]
+mod sim_clock {
+    use chrono::{DateTime, Local};
+    use std::cell::Cell;
+
+    thread_local! {
+        pub(super) static NOW: Cell<Option<DateTime<Local>>> = Cell::new(None);
+    }
+}
+
 /// The evaluation context that contains unit definitions.
 #[derive(Debug)]
 pub struct Context {
@@ -58,7 +68,19 @@ impl Context {
     }
 
     pub fn update_time(&mut self) {
+        #[cfg(rink_verif_sim)]
+        if let Some(now) = sim_clock::NOW.with(|n| n.get()) {
+            self.now = now;
+            return;
+        }
         self.now = Local::now();
+    }
+
+    /// Verification seam: makes `update_time()` on this thread read the
+    /// given instant instead of the wall clock (None: wall clock again).
+    #[cfg(rink_verif_sim)]
+    pub fn sim_set_clock(now: Option<DateTime<Local>>) {
+        sim_clock::NOW.with(|n| n.set(now));
     }
 
     pub fn load_dates(&mut self, mut dates: Vec<Vec<DatePattern>>) {
